@@ -5,7 +5,8 @@ into values, names and tokens (each generator picks the ones that are inside the
 # inside a value / line of text (no newline, no Python-only whitespace)
 VALUE_BITS = ["%s", "%(a)d 5%%", "100%", "{0} {x}", "$HOME", "a;b", "a,b", "x, y", "a:b", "#hash", "\\n", "back\\slash", "'q' \"d\"",
               "-----BEGIN PGP SIGNATURE-----", "-----END PGP SIGNATURE-----", "-----BEGIN PGP SIGNED MESSAGE-----", "-----",
-              "Hash: SHA256", ".", "..", "~", "+", "٣７²", "Kıſ", "éÉ", "x\x7fy", "<a> [b] (c)"]
+              "Hash: SHA256", ".", "..", "~", "+", "٣７²", "Kıſ", "éÉ", "x\x7fy", "<a> [b] (c)",
+              "Rene\u0301 Mu\u0308ller", "\u212b \u2126 \ufb01"]      # not in any Unicode normal form: text is code points, never normalised
 
 # characters Python treats as whitespace / line boundaries but the formats do not define (outside the domain of most
 # properties; used where the property explicitly covers arbitrary text)
